@@ -129,6 +129,16 @@ def bf_table(bf, names):
 
 def bv_ite(c, a, b): return BV([ite(c, x, y) for x, y in zip(a.bits, b.bits)])
 
+U8_FNS = {
+    "to_ascii_lowercase": ("u8", lambda x: x + 32 if 65 <= x <= 90 else x),
+    "to_ascii_uppercase": ("u8", lambda x: x - 32 if 97 <= x <= 122 else x),
+    "is_ascii_uppercase": ("bool", lambda x: 65 <= x <= 90),
+    "is_ascii_lowercase": ("bool", lambda x: 97 <= x <= 122),
+    "is_ascii_alphabetic": ("bool", lambda x: 65 <= x <= 90 or 97 <= x <= 122),
+    "is_ascii_digit": ("bool", lambda x: 48 <= x <= 57),
+    "is_ascii": ("bool", lambda x: x < 128),
+}
+
 class View:  # slice view into a named byte array
     def __init__(self, arr, off): self.arr, self.off = arr, off
 class CellRef:
@@ -224,6 +234,8 @@ class Interp:
         raise Undecided("binop " + op)
     def _exec(self, f, bb, env, mem, pc, results, depth):
         if pc.is0(): return
+        if bb in getattr(self, "stop", ()):      # region evaluation: treat this block as the exit
+            results.append((pc, None, mem)); return
         b = f["blocks"][bb]
         for s in b["stmts"]:
             if s["k"] != "assign": continue
@@ -308,6 +320,15 @@ class Interp:
                         rr_, mem2 = sub.run(ck, [args[1]] + list(args[0].items), mem)
                         for kk in mem: mem[kk] = mem2[kk]
                         r = EnumV(args[0].adt, good, [rr_])
+            elif path.startswith("core::num::<impl u") and path.rsplit("::", 1)[-1] in ("wrapping_sub", "wrapping_add") and isinstance(args[0], BV) and isinstance(args[1], BV):
+                r = self.binop("Sub" if path.endswith("wrapping_sub") else "Add", args[0], args[1])
+            elif path.startswith("core::num::<impl u8>::") and path.rsplit("::", 1)[-1] in U8_FNS and (isinstance(args[0], BV) or isinstance(args[0], CellRef)):
+                a0 = mem[args[0].arr][args[0].idx] if isinstance(args[0], CellRef) else args[0]
+                fn_ = U8_FNS[path.rsplit("::", 1)[-1]]
+                if fn_[0] == "bool":
+                    r = bf_from_fn([a0], lambda x: bool(fn_[1](x)))
+                else:
+                    r = BV([bf_from_fn([a0], (lambda i_: (lambda x: bool((fn_[1](x) >> i_) & 1)))(i)) for i in range(8)])
             elif path == "std::option::Option::<T>::unwrap_or" and args[0] == "SELF.ext_flags":
                 r = BV([BF.var("E") & BF.var(f"e{i}") for i in range(16)])
             elif path in self.fns or c.get("resolved_local"):
